@@ -475,6 +475,42 @@ func (c *Ctx) lexemes() *lexemeTable {
 				})
 				continue
 			}
+			// open class: the clause calls a scanner (a lexer method that returns the literal)
+			var scannerType int64 = -1
+			hasScanner := false
+			ast.Inspect(cl, func(n ast.Node) bool {
+				call, ok := n.(*ast.CallExpr)
+				if !ok {
+					return true
+				}
+				if f, ok := calleeFunc(info, call); ok && f.Pkg() == c.Pkg("lexer") {
+					if sig, ok := f.Type().(*types.Signature); ok && sig.Recv() != nil && sig.Results().Len() >= 1 {
+						if b, ok := sig.Results().At(0).Type().Underlying().(*types.Basic); ok && b.Kind() == types.String {
+							hasScanner = true
+						}
+					}
+				}
+				if isTokenCtor(call) {
+					if tv, ok := c.tokConstOf(info, call.Args[0]); ok && tv != illegal {
+						scannerType = tv
+					}
+				}
+				return true
+			})
+			if hasScanner {
+				ast.Inspect(cl, func(n ast.Node) bool {
+					if call, ok := n.(*ast.CallExpr); ok && isTokenCtor(call) {
+						lt.sites++
+					}
+					return true
+				})
+				if scannerType >= 0 {
+					lt.strDelims[byte(i)] = scannerType
+				} else {
+					lt.problems = append(lt.problems, fmt.Sprintf("scanner case %q builds no non-ILLEGAL token", string(byte(i))))
+				}
+				continue
+			}
 			walk(cl.Body, string(byte(i)))
 		}
 	}
@@ -494,6 +530,8 @@ func (c *Ctx) lexemes() *lexemeTable {
 	}
 	return lt
 }
+
+func (c *Ctx) Pkg(short string) *types.Package { return c.Pkgs[short].Types }
 
 func calleeFunc(info *types.Info, call *ast.CallExpr) (*types.Func, bool) {
 	var id *ast.Ident
